@@ -31,7 +31,7 @@ for d in sorted(os.listdir(root)):
             t0 = time.time()
             r = subprocess.run([os.path.join(VERIF, 'check'), p, '--tier', a.tier, '--no-evidence'], cwd=VERIF, capture_output=True, text=True,
                                env=dict(os.environ, VERIF_REPO=wt))
-            why = [l.strip() for l in r.stdout.splitlines() if 'failing test' in l]
+            why = [''.join(ch if 32 <= ord(ch) < 127 else '?' for ch in l.strip()) for l in r.stdout.splitlines() if 'failing test' in l]
             res[p] = {'exit': r.returncode, 'seconds': round(time.time() - t0, 1), 'why': (why[0][:300] if why else '')}
             rows.append((d, p, 'detected' if r.returncode == 1 else ('MISSED' if r.returncode == 0 else 'inconclusive(exit %d)' % r.returncode), '%.0fs' % (time.time() - t0), why[0][:200] if why else ''))
         meta['check_result'] = res
